@@ -59,3 +59,24 @@ pub(crate) fn slab_pair_event(data_len: usize, count: usize, ss: usize, dest_sta
 
 #[cfg(feature = "std")]
 pub use crate::encoder::verif_plan_cache as plan_cache;
+
+/// Flat, nameable form of a recorded symbol-operation vector (the type itself is crate-private):
+/// (kind, dest, src, scalar) with kind 1 = AddAssign, 2 = MulAssign, 3 = FMA, and the final reorder mapping.
+#[allow(clippy::type_complexity)]
+#[cfg(feature = "std")]
+pub fn symbol_ops_flat(
+    ops: &[crate::operation_vector::SymbolOps],
+) -> (std::vec::Vec<(u8, usize, usize, u8)>, std::vec::Vec<usize>) {
+    use crate::operation_vector::SymbolOps;
+    let mut flat = std::vec::Vec::with_capacity(ops.len());
+    let mut order = std::vec::Vec::new();
+    for op in ops {
+        match op {
+            SymbolOps::AddAssign { dest, src } => flat.push((1, *dest, *src, 1)),
+            SymbolOps::MulAssign { dest, scalar } => flat.push((2, *dest, *dest, scalar.byte())),
+            SymbolOps::FMA { dest, src, scalar } => flat.push((3, *dest, *src, scalar.byte())),
+            SymbolOps::Reorder { order: o } => order = o.clone(),
+        }
+    }
+    (flat, order)
+}
